@@ -132,6 +132,12 @@ def gen(rng, tier):
     # medium tables: tie at 8 KiB
     for ty, sz in (("sym", 24), ("shdr", 64), ("u32", 4)):
         cases.append("table %s le 64 %s | len | nexts 3" % (ty, hx(rand_bytes(rng, 8192 + 3))))
+    # provided Iterator adaptors on plain entry iterators must end too (step_by / skip / count after a partial walk)
+    import props.C09 as C09
+    for ty in ("shdr", "phdr", "sym", "rel", "rela", "dyn", "u32", "u64", "versym"):
+        cl = rng.choice((32, 64))
+        d = rand_bytes(rng, 5 * C02.size_of(ty, cl) + rng.randrange(0, 4))
+        cases.append("table %s %s %d %s | len | iter | walk 0 0 5 2 | walk 0 0 0 0 6 1 | walk 0 0 3 0 | %s" % (ty, rng.choice(SPECS), cl, hx(d), C09.walk_script(rng, 5)))
     # 64 KiB worst cases, timed on the implementation only (the extracted model computes on binary
     # positives and would take minutes on the quadratic ones)
     del _big[:]
